@@ -43,6 +43,9 @@ pub struct SeqCfg {
     pub alt_thread_from: usize,
     /// do not merge histories that reach the same (dump, model) state
     pub no_dedup: bool,
+    /// non-initial start states: histories (alphabet indices, no victim choices) whose every step is
+    /// judged once and from whose end states the exploration starts as well as from the empty store
+    pub roots: Vec<Vec<u16>>,
 }
 
 #[derive(Clone, Debug, PartialEq, Eq, Hash, PartialOrd, Ord)]
@@ -74,6 +77,8 @@ pub struct Runner<'a> {
     /// the second worker thread of this runner (configurations with `alt_thread_from`): it lives as
     /// long as the runner, like a server's worker thread
     helper: Option<Helper>,
+    /// commands applied so far (breadcrumb for a process abort)
+    trail: Vec<(u16, Vec<u8>)>,
 }
 
 /// One request to the helper thread: (address of the runner's Conn, request bytes, choice prefix).
@@ -146,7 +151,7 @@ impl<'a> Runner<'a> {
         model.now = cfg.start_time;
         model.item_limit = Some(cfg.sut.item_limit);
         let helper = if cfg.alt_thread_from > 0 { Some(Helper::start()) } else { None };
-        Runner { cfg, world, conn, model, helper }
+        Runner { cfg, world, conn, model, helper, trail: vec![] }
     }
 
     pub fn apply(&mut self, idx: usize, choices: &[u8]) -> Applied {
@@ -162,6 +167,9 @@ impl<'a> Runner<'a> {
             divergence: None,
             tick_secs: None,
         };
+        if crate::sut::crumbs_on() {
+            self.trail.push((idx as u16, choices.to_vec()));
+        }
         self.model.settle();
         ap.state_class = state_class(&self.model, cmd.key());
         if let Cmd::Tick(t) = cmd {
@@ -209,6 +217,19 @@ impl<'a> Runner<'a> {
         // after the other: no race, only the identity of the executing thread differs)
         let on_helper = self.cfg.alt_thread_from > 0 && idx >= self.cfg.alt_thread_from;
         let prefix: Vec<usize> = choices.iter().map(|c| *c as usize).collect();
+        if crate::sut::crumbs_on() {
+            let (cfg, trail) = (self.cfg, &self.trail);
+            crate::sut::set_seq_crumb(|s| {
+                use std::fmt::Write;
+                let _ = write!(s, "{}|{}|", cfg.prop, cfg.name);
+                for (i, (c, ch)) in trail.iter().enumerate() {
+                    let _ = write!(s, "{}{}:", if i > 0 { "," } else { "" }, c);
+                    for (j, x) in ch.iter().enumerate() {
+                        let _ = write!(s, "{}{}", if j > 0 { "." } else { "" }, x);
+                    }
+                }
+            });
+        }
         let (out, ctx) = if on_helper {
             let h = self.helper.as_ref().expect("helper thread");
             h.tx.send((&mut self.conn as *mut Conn as usize, bytes.clone(), prefix)).expect("helper thread alive");
@@ -281,7 +302,25 @@ impl<'a> Runner<'a> {
                     };
                     let storeish = matches!(cmd, Cmd::Store { .. } | Cmd::Concat { .. } | Cmd::Delta { .. });
                     let evicting = !ap.choice_ns.is_empty() || (storeish && ub > limit);
-                    let tag = if evicting {
+                    // the counter arithmetic of a command that ran the eviction loop is exact: what it
+                    // attempted to store is added, every victim's size is subtracted (the replaced
+                    // record's only if it was itself the victim), or the loop met an empty store and
+                    // restarted the counter at the attempted record.  The recorded defects never
+                    // leave that set; anything else is a different fault of the loop
+                    let explained = {
+                        let xs: Vec<i128> = if ok && new_size > 0 { vec![new_size, attempted] } else { vec![attempted, 0] };
+                        let others_removed: i128 = before
+                            .iter()
+                            .filter(|d| Some(&d.key) != key.as_ref() && !after.iter().any(|a| a.key == d.key))
+                            .map(|d| d.size() as i128)
+                            .sum();
+                        let uai = norm(ua as i128, ua);
+                        let ubi = norm(ub as i128, ub);
+                        xs.iter().any(|x| uai == ubi + x - others_removed || uai == ubi + x - others_removed - old_size || uai == *x)
+                    };
+                    let tag = if evicting && !explained {
+                        "@eviction-loop-unexplained"
+                    } else if evicting {
                         "@eviction-loop"
                     } else if removed > 0 && delta == removed {
                         "+removed-records"
@@ -519,12 +558,83 @@ pub fn explore_seq(cfg: &SeqCfg, threads: usize, tree_depth: usize) -> SeqReport
     let owned_hits: Mutex<BTreeMap<String, u64>> = Mutex::new(BTreeMap::new());
     let mach_err: Mutex<Option<String>> = Mutex::new(None);
     let stop = AtomicBool::new(false);
+    let record = |nh: &Hist, ci: usize, ap: &Applied| {
+        for vl in &ap.viols {
+            let own = owners(vl.clause);
+            if own.contains(&cfg.prop) {
+                *owned_hits.lock().unwrap().entry(vl.clause.to_string()).or_insert(0) += 1;
+                let sig = signature(vl.clause, &vl.tag, &cfg.alphabet[ci], ap.state_class);
+                let mut f = found.lock().unwrap();
+                let better = match f.get(&sig) {
+                    None => true,
+                    Some(old) => (nh.len(), nh) < (old.hist.len(), &old.hist),
+                };
+                if better {
+                    f.insert(
+                        sig.clone(),
+                        Found {
+                            clause: vl.clause,
+                            signature: sig,
+                            detail: vl.detail.clone(),
+                            hist_text: hist_text(cfg, &nh),
+                            hist: nh.clone(),
+                            cfg_name: cfg.name.clone(),
+                        },
+                    );
+                }
+            } else {
+                let owner = own.first().copied().unwrap_or("?");
+                *foreign.lock().unwrap().entry(format!("{}:{}", owner, vl.clause)).or_insert(0) += 1;
+                let mut fe = foreign_ex.lock().unwrap();
+                let k = format!("{}:{}", owner, signature(vl.clause, &vl.tag, &cfg.alphabet[ci], ap.state_class));
+                let txt = format!("{}  after [{}]", vl.detail, hist_text(cfg, &nh).join(" ; "));
+                let better = fe.get(&k).map(|o| txt.len() < o.len()).unwrap_or(true);
+                if better {
+                    fe.insert(k, txt);
+                }
+            }
+        }
+    };
     let mut frontier: Vec<Hist> = vec![vec![]];
-    rep.level_states.push(1);
+    // non-initial start states: walk each root once, judging every step, then explore from its end
+    for root in &cfg.roots {
+        crate::watchdog::working_on(format!("[{}] root history of {} commands", cfg.name, root.len()));
+        let mut r = Runner::new(cfg);
+        let mut h: Hist = vec![];
+        let mut ok = true;
+        for c in root {
+            crate::watchdog::working_on(format!("[{}] root history of {} commands, at command #{}: {}", cfg.name, root.len(), h.len(), cfg.alphabet[*c as usize].short()));
+            let ap = r.apply(*c as usize, &[]);
+            if !ap.applicable || ap.divergence.is_some() || !ap.choice_ns.is_empty() {
+                rep.machinery_error = Some(format!("[{}] root history not executable at command {}", cfg.name, h.len()));
+                ok = false;
+                break;
+            }
+            h.push(Elem { cmd: *c, choices: vec![] });
+            transitions.fetch_add(1, Ordering::Relaxed);
+            record(&h, *c as usize, &ap);
+            if ap.pruned {
+                ok = false;
+                break;
+            }
+        }
+        crate::watchdog::idle();
+        if rep.machinery_error.is_some() {
+            return rep;
+        }
+        if ok && (cfg.no_dedup || insert(r.fingerprint())) {
+            states.fetch_add(1, Ordering::Relaxed);
+            frontier.push(h);
+        }
+    }
+    rep.level_states.push(frontier.len() as u64);
     rep.tree.push(vec![]);
     let mut depth = 0usize;
+    let mut last_new = frontier.len() as u64;
     while !frontier.is_empty() && depth < cfg.depth {
         let next: Mutex<Vec<Hist>> = Mutex::new(Vec::new());
+        let level_new = AtomicU64::new(0);
+        let last_level = depth + 1 >= cfg.depth;
         let idx = AtomicUsize::new(0);
         let fr = &frontier;
         std::thread::scope(|s| {
@@ -589,41 +699,7 @@ pub fn explore_seq(cfg: &SeqCfg, threads: usize, tree_depth: usize) -> SeqReport
                                     let o = hh.finish();
                                     outcomes[(o as usize) % SHARDS].lock().unwrap().insert(o);
                                 }
-                                for vl in &ap.viols {
-                                    let own = owners(vl.clause);
-                                    if own.contains(&cfg.prop) {
-                                        *owned_hits.lock().unwrap().entry(vl.clause.to_string()).or_insert(0) += 1;
-                                        let sig = signature(vl.clause, &vl.tag, &cfg.alphabet[ci], ap.state_class);
-                                        let mut f = found.lock().unwrap();
-                                        let better = match f.get(&sig) {
-                                            None => true,
-                                            Some(old) => (nh.len(), &nh) < (old.hist.len(), &old.hist),
-                                        };
-                                        if better {
-                                            f.insert(
-                                                sig.clone(),
-                                                Found {
-                                                    clause: vl.clause,
-                                                    signature: sig,
-                                                    detail: vl.detail.clone(),
-                                                    hist_text: hist_text(cfg, &nh),
-                                                    hist: nh.clone(),
-                                                    cfg_name: cfg.name.clone(),
-                                                },
-                                            );
-                                        }
-                                    } else {
-                                        let owner = own.first().copied().unwrap_or("?");
-                                        *foreign.lock().unwrap().entry(format!("{}:{}", owner, vl.clause)).or_insert(0) += 1;
-                                        let mut fe = foreign_ex.lock().unwrap();
-                                        let k = format!("{}:{}", owner, signature(vl.clause, &vl.tag, &cfg.alphabet[ci], ap.state_class));
-                                        let txt = format!("{}  after [{}]", vl.detail, hist_text(cfg, &nh).join(" ; "));
-                                        let better = fe.get(&k).map(|o| txt.len() < o.len()).unwrap_or(true);
-                                        if better {
-                                            fe.insert(k, txt);
-                                        }
-                                    }
-                                }
+                                record(&nh, ci, &ap);
                                 if ap.pruned {
                                     continue;
                                 }
@@ -632,7 +708,11 @@ pub fn explore_seq(cfg: &SeqCfg, threads: usize, tree_depth: usize) -> SeqReport
                                 // tied to the executing thread) enumerate histories, not states
                                 if cfg.no_dedup || insert(fp) {
                                     states.fetch_add(1, Ordering::Relaxed);
-                                    local_next.push(nh);
+                                    level_new.fetch_add(1, Ordering::Relaxed);
+                                    // the last level is judged, not expanded: no need to keep it
+                                    if !last_level || depth < tree_depth {
+                                        local_next.push(nh);
+                                    }
                                 }
                             }
                         }
@@ -666,7 +746,8 @@ pub fn explore_seq(cfg: &SeqCfg, threads: usize, tree_depth: usize) -> SeqReport
             break;
         }
         depth += 1;
-        rep.level_states.push(nx.len() as u64);
+        rep.level_states.push(level_new.load(Ordering::Relaxed));
+        last_new = level_new.load(Ordering::Relaxed);
         if depth <= tree_depth {
             rep.tree.extend(nx.iter().cloned());
         }
@@ -678,7 +759,7 @@ pub fn explore_seq(cfg: &SeqCfg, threads: usize, tree_depth: usize) -> SeqReport
         frontier = nx;
     }
     rep.depth_reached = depth;
-    rep.frontier_emptied = frontier.is_empty() && rep.capped.is_none() && rep.machinery_error.is_none();
+    rep.frontier_emptied = last_new == 0 && rep.capped.is_none() && rep.machinery_error.is_none();
     rep.states = states.load(Ordering::Relaxed);
     rep.transitions = transitions.load(Ordering::Relaxed);
     rep.executions = executions.load(Ordering::Relaxed);
